@@ -59,7 +59,7 @@ ASSUMPTIONS = [
 
 CLASSES = ["random_cluster", "late_suitors", "candidate_forest", "line_mid_start", "prefix_cut", "prefix_reject", "prefix_first", "heads_compete", "suffix_reject_fork",
            "suffix_after_cut", "both_sides_nocut", "both_sides_cut", "both_sides_reject", "bend_back_after_cut", "tail_cut", "tail_cut_after_join", "tail_cut_with_join", "same_target_single",
-           "same_chain_bridge", "closed_ring", "min_distance_shell", "tomo_overlap", "odd_ids_index", "zero_displacement", "tiny"]
+           "same_chain_bridge", "closed_ring", "min_distance_shell", "tomo_overlap", "odd_ids_index", "zero_displacement", "tiny", "lattice_ties"]
 
 CLAUSES = ["partition", "tomogram", "orders", "link_range", "link_recorded"]
 
@@ -162,12 +162,19 @@ def teardown(ctx):
     rep = ctx.tracer.report()
     ctx.cur = {"index": "teardown", "cls": "reach"}
     for a, br in ANCHORS.items():
+        located = {nm for names in ctx.tracer.anchors.get(a, {}).get("branch_lines", {}).values() for nm in names}
         for b in br:
             n = rep.get(a, {}).get("branches", {}).get(b, 0)
             name = "reach:%s.%s" % (a, b)
             if name in REACH:
                 ctx.declare(name)
-                if n > 0:
+                if b not in located:
+                    # the needle is not in the current source (refactored code): the minimum is waived, the branch carries no coverage claim
+                    ctx.check(name, True)
+                    note = "named branch %s.%s not located in the current source: reach minimum waived, branch coverage NOT observed" % (a, b)
+                    if note not in ctx.notes:
+                        ctx.notes.append(note)
+                elif n > 0:
                     ctx.check(name, True)
             elif n > 0:
                 ctx.notes.append("branch %s.%s, held to be unreachable, WAS reached %d times" % (a, b, n))
@@ -749,6 +756,95 @@ def _index(rng, df, kind):
     return df
 
 
+_SHELLS = {}
+
+
+def _shell(r2):
+    """all integer vectors v with |v|^2 == r2 (cached)."""
+    if r2 not in _SHELLS:
+        r = int(np.floor(np.sqrt(r2))) + 1
+        g = np.arange(-r, r + 1)
+        a, b, c = np.meshgrid(g, g, g, indexing="ij")
+        k = (a * a + b * b + c * c) == r2
+        _SHELLS[r2] = np.stack([a[k], b[k], c[k]], axis=1)
+    return _SHELLS[r2]
+
+
+def _lattice_case(rng, v):
+    """integer lattice (scaled by a power of two), integral min_distance > 0 and max_distance; stations plant candidate entries
+    EXACTLY at min_distance (axis-aligned and Pythagorean offsets: must not be linked), exactly at max_distance (may be linked), just
+    beyond max, inside min and in between, around an exit; plus a random lattice cloud full of ties.  -> E, X, tomo_idx, D, m, tags"""
+    m = int([5, 3, 10, 13, 6, 9, 7, 15][v % 8])
+    D = m + int(rng.integers(2, 13))
+    nst = int(rng.integers(1, 5))
+    ntomo = int(rng.integers(1, 4))
+    E, X, T, tags = [], [], [], []
+    axes = np.eye(3, dtype=int)
+    for st in range(nst):
+        org = np.array([st * 12 * D, int(rng.integers(-3, 4)) * D, int(rng.integers(-3, 4)) * D])
+        a1, a2 = (int(q) for q in rng.choice(3, 2, replace=False))
+        sgn = int(rng.choice([-1, 1]))
+        x_s = org.copy()
+        e_s = x_s - sgn * (3 * D + 1) * axes[a1]
+        kinds = ["min"]
+        kinds += [k for k in ("between", "max", "beyond", "inside", "min") if rng.random() < 0.5]
+        if st == 0 and v % 2 == 0:
+            kinds = ["min", "max"] if v % 4 == 0 else ["min", "between"]
+        cand = []
+        for kd in kinds:
+            if kd == "min":
+                sh = _shell(m * m)
+                vec = sh[int(rng.integers(0, len(sh)))] if rng.random() < 0.7 else m * axes[int(rng.integers(0, 3))] * int(rng.choice([-1, 1]))
+            elif kd == "max":
+                sh = _shell(D * D)
+                vec = sh[int(rng.integers(0, len(sh)))]
+            elif kd == "beyond":
+                sh = _shell(D * D + int(rng.integers(1, 2 * D)))
+                if len(sh) == 0:
+                    continue
+                vec = sh[int(rng.integers(0, len(sh)))]
+            elif kd == "inside":
+                vec = rng.integers(-(m // 2), m // 2 + 1, 3)
+                if int((vec * vec).sum()) == 0 or int((vec * vec).sum()) >= m * m:
+                    continue
+            else:
+                r2 = int(rng.integers(m * m + 1, D * D))
+                sh = _shell(r2)
+                if len(sh) == 0:
+                    continue
+                vec = sh[int(rng.integers(0, len(sh)))]
+            e_c = x_s + np.asarray(vec, dtype=int)
+            cand.append((e_c, e_c + int(rng.choice([-1, 1])) * (4 * D + len(cand)) * axes[a2]))
+        order = (v // 2 + st) % 3               # source first / candidates first / source in the middle
+        block = [(e_s, x_s)]
+        block = block + cand if order == 0 else cand + block if order == 1 else cand[:1] + block + cand[1:]
+        for e_, x_ in block:
+            E.append(e_)
+            X.append(x_)
+            T.append(st % ntomo)
+        tags.append("station:%s/o%d" % ("+".join(kinds), order))
+    ncloud = int(rng.integers(0, 14)) if len(E) >= 2 else int(rng.integers(2, 14))
+    if ncloud:
+        box = int(rng.integers(1, 3)) * D
+        org = np.array([0, 40 * D, 0])
+        pts = np.unique(rng.integers(0, box + 1, (ncloud, 3)), axis=0)
+        rng.shuffle(pts)
+        tcl = int(rng.integers(0, ntomo))
+        for q in pts:
+            E.append(org + q)
+            X.append(org + q + rng.integers(-m, m + 1, 3) * int(rng.random() < 0.8))
+            T.append(tcl)
+        tags.append("cloud%d" % len(pts))
+    E, X, T = np.array(E, dtype=float), np.array(X, dtype=float), np.array(T, dtype=int)
+    if len(E) > 60:
+        E, X, T = E[:60], X[:60], T[:60]
+    _, T = np.unique(T, return_inverse=True)
+    scale = float([1.0, 1.0, 0.5, 0.125, 2.0, 1.0][(v // 8 + int(rng.integers(0, 6))) % 6])
+    perm = np.concatenate([np.flatnonzero(T == t) for t in rng.permutation(int(T.max()) + 1)]) if rng.random() < 0.5 else np.arange(len(E))
+    shift = rng.integers(20, 300, 3).astype(float)
+    return (E[perm] + shift) * scale, (X[perm] + shift) * scale, np.asarray(T).reshape(-1)[perm], float(D * scale), float(m * scale), tags
+
+
 def gen(ctx, i, cls):
     rng = ctx.rng(i)
     v = i // len(CLASSES)
@@ -761,6 +857,7 @@ def gen(ctx, i, cls):
         ntomo = int(rng.integers(1, 4))
         budget = int(rng.integers(8, 61)) if (big or rng.random() < 0.4) else int(rng.integers(4, 30))
         parts, tags, designed, overlap = [], [], True, False
+        lat = _lattice_case(rng, v) if cls == "lattice_ties" else None
         if cls in GADGETS:
             names = [cls]
         elif cls == "odd_ids_index":
@@ -769,7 +866,9 @@ def gen(ctx, i, cls):
             names = []
         else:
             names = []
-        if cls in ("late_suitors", "candidate_forest"):
+        if lat is not None:
+            designed = False
+        elif cls in ("late_suitors", "candidate_forest"):
             designed = False
             left = min(60, max(4, budget))
             for t in range(ntomo):
@@ -872,13 +971,18 @@ def gen(ctx, i, cls):
                     continue
                 parts.append(g)
                 used += len(g[0])
-        if sum(len(p[0]) for p in parts) < 2:
-            parts.append((np.zeros((1, 3)), _rand_unit(rng)[None, :] * D * 0.5, [0], "lone"))
-        n_total = sum(len(p[0]) for p in parts)
-        if n_total > 60 or n_total < 2:
-            continue
-        ntomo = min(ntomo, len(parts))
-        E, X, tomo_idx = _assemble(rng, parts, ntomo, D, overlap)
+        if lat is not None:
+            E, X, tomo_idx, D, m, lat_tags = lat
+            if len(E) < 2:
+                continue
+        else:
+            if sum(len(p[0]) for p in parts) < 2:
+                parts.append((np.zeros((1, 3)), _rand_unit(rng)[None, :] * D * 0.5, [0], "lone"))
+            n_total = sum(len(p[0]) for p in parts)
+            if n_total > 60 or n_total < 2:
+                continue
+            ntomo = min(ntomo, len(parts))
+            E, X, tomo_idx = _assemble(rng, parts, ntomo, D, overlap)
         # presentation
         odd = cls == "odd_ids_index"
         pres = {"form": str(rng.choice(["df", "motl", "em", "mixed", "em_df"], p=[0.35, 0.35, 0.1, 0.15, 0.05])) if not odd else str(rng.choice(["motl", "mixed", "df"], p=[0.6, 0.25, 0.15])),
@@ -892,8 +996,7 @@ def gen(ctx, i, cls):
         Xt = {"sub": dx["subtomo_id"].to_numpy(float), "tomo": dx["tomo_id"].to_numpy(float), "pos": gens.positions(dx), "n": len(dx)}
         if not orc.boundary_clear(Et, Xt, m, D, 1e-6):
             continue
-        dm = orc.link_matrix(Et, Xt)
-        cand = (dm > m) & (dm <= D)
+        cand = orc.candidates(Et, Xt, m, D)
         if designed:
             # the assembled case has exactly the intended candidate links (rigid motions and float splitting keep them)
             want = 0
@@ -906,7 +1009,7 @@ def gen(ctx, i, cls):
                 continue
         _index(rng, de, pres["index_e"])
         _index(rng, dx, pres["index_x"])
-        tags = [p[3] for p in parts]
+        tags = lat_tags if lat is not None else [p[3] for p in parts]
         summ = {"class": cls, "variant": v, "n": int(len(de)), "tomograms": int(len(np.unique(Et["tomo"]))), "max_distance": D, "min_distance": m,
                 "candidate_links": int(cand.sum()), "presentation": pres, "gadgets": tags,
                 "entry0": np.round(Et["pos"][0], 4).tolist(), "exit0": np.round(Xt["pos"][0], 4).tolist(), "attempt": attempt}
@@ -986,3 +1089,15 @@ def run_case(ctx, case):
     if w is None and case["n_cand"] == 0 and len(keyed) != len(out["sub"]):
         w = {"what": "no candidate pair exists, yet some chain has more than one member", "chains": len(keyed), "particles": len(out["sub"])}
     ctx.check("trivial_pairs", w is None, w)
+    if case["cls"] == "lattice_ties":
+        d2 = orc.sq_matrix(case["E"], case["X"])
+        ex = orc.exact_pairs(case["E"], case["X"], m, D)
+        ctx.extra["lattice_pairs_exactly_at_min"] = ctx.extra.get("lattice_pairs_exactly_at_min", 0) + int((ex & (d2 == m * m)).sum())
+        ctx.extra["lattice_pairs_exactly_at_max"] = ctx.extra.get("lattice_pairs_exactly_at_max", 0) + int((ex & (d2 == D * D)).sum())
+        nmax = 0
+        for key, mem in keyed.items():
+            for (g1, s1), (g2, s2) in zip(mem[:-1], mem[1:]):
+                if s1 in row_of and s2 in row_of and d2[row_of[s1], row_of[s2]] == D * D:
+                    nmax += 1
+        ctx.extra["lattice_links_exactly_at_max"] = ctx.extra.get("lattice_links_exactly_at_max", 0) + nmax
+        ctx.extra["lattice_cases_all_pairs_exact"] = ctx.extra.get("lattice_cases_all_pairs_exact", 0) + int(ex.all())
